@@ -2,8 +2,9 @@
 # Builds the framework from files on disk only (offline).
 set -e
 export GOFLAGS=-mod=mod GOPROXY=off GOSUMDB=off GOTOOLCHAIN=local
-mkdir -p /verif/bin /verif/evidence /verif/replays
-cd /verif/sim
-go build -o /verif/bin/vcheck ./cmd/vcheck
-if [ -d /verif/conc ] && [ -f /verif/conc/setup.sh ]; then /verif/conc/setup.sh; fi
+VERIF=$(dirname "$(readlink -f "$0")")
+mkdir -p $VERIF/bin $VERIF/evidence $VERIF/replays
+cd $VERIF/sim
+go build -o $VERIF/bin/vcheck ./cmd/vcheck
+(cd $VERIF/conc/instrument && go build -o $VERIF/bin/instrument .)
 echo setup ok
